@@ -1,12 +1,12 @@
 #!/bin/bash
 # confirm_seed.sh <Cxx> <N>: confirm a sub-agent's seeded change in its scratch worktree, then try the checks on it.
-P=$1; N=$2; W=/tmp/seed/$P; S=$W/_seed
+P=$1; N=$2; W=${SEEDROOT:-/tmp/seed2}/$P; S=$W/_seed
 [ -f $S/patch$N.diff ] || { echo "no patch"; exit 9; }
 git -C $W checkout -q -- supp supp-lint supp-find
-echo "--- demo on clean tree:"; (cd $W && timeout 120 /venv/bin/python $S/demo$N.py >/tmp/seed/demo.out 2>&1; echo "exit=$?"; tail -2 /tmp/seed/demo.out | cut -c1-200)
+echo "--- demo on clean tree:"; (cd $W && timeout 120 /venv/bin/python $S/demo$N.py >/tmp/seed2/demo.out 2>&1; echo "exit=$?"; tail -2 /tmp/seed2/demo.out | cut -c1-200)
 git -C $W apply $S/patch$N.diff || { echo "patch does not apply to worktree"; exit 9; }
 echo "--- test suite with patch:"; (cd $W && PYTHONPATH=$W timeout 600 /venv/bin/python -m pytest -q -p no:cacheprovider 2>&1 | tail -1)
-echo "--- demo with patch:"; (cd $W && timeout 120 /venv/bin/python $S/demo$N.py >/tmp/seed/demo.out 2>&1; echo "exit=$?"; tail -2 /tmp/seed/demo.out | cut -c1-200)
+echo "--- demo with patch:"; (cd $W && timeout 120 /venv/bin/python $S/demo$N.py >/tmp/seed2/demo.out 2>&1; echo "exit=$?"; tail -2 /tmp/seed2/demo.out | cut -c1-200)
 git -C $W checkout -q -- supp supp-lint supp-find
 echo "--- patch:"; grep -E '^[+-]' $S/patch$N.diff | grep -vE '^(\+\+\+|---)' | cut -c1-160 | head -20
 echo "--- checks on /repo with patch:"; /verif/tools/try_seed.sh $S/patch$N.diff ${@:3}
